@@ -261,22 +261,34 @@ theorem drain_request_handled (w : W) :
 open Factory in
 /-- (the factory then stops) at the end of any handler, a draining factory whose workers are
 all free and whose queue is empty marks itself drained and asks itself to stop; the actor loop
-honours the stop before any further supervision event or message; `post_stop` leaves it stopped
-and runs the stopped hook last. -/
+honours the stop before any further supervision event or message and enters `post_stop`: from
+then on the factory handles and accepts nothing; once the workers it waits for have exited the
+stopped hook runs and the actor is `Stopped`. -/
 theorem drained_factory_stops (w : W) (hb : w.blocked = false) (hd : w.drain = .draining)
     (hfree : w.pool.all (·.isAvailable) = true) (hq : w.queue = []) :
     w.afterHandle.stopSignal = true ∧ w.afterHandle.drain = .drained ∧
     (∀ w' : W, w'.stopSignal = true → w'.stopped = false → w'.blocked = false →
-      w'.loopStep = some w'.postStop ∧ w'.postStop.stopped = true) := by
-  refine ⟨?_, ?_, ?_⟩
+      w'.loopStep = some w'.postStop ∧ w'.postStop.stopped = true ∧ w'.postStop.loopStep = none) ∧
+    (∀ w' : W, w'.stopped = true → w'.exited = false →
+      w'.awaiting.all (fun aid => !(w'.env.getActor aid).any (·.alive)) = true →
+      w'.tryFinishStop.exited = true ∧
+      ∃ rest, w'.tryFinishStop.env.log = w'.env.log ++ Ev.hook .stopped :: rest) := by
+  refine ⟨?_, ?_, ?_, ?_⟩
   · unfold W.afterHandle W.isDrained
     simp [hb, hd, hfree, hq]
   · unfold W.afterHandle W.isDrained
     simp [hb, hd, hfree, hq]
   · intro w' hs hst hbl
-    refine ⟨?_, rfl⟩
-    unfold W.loopStep
-    simp [hs, hst, hbl]
+    refine ⟨?_, rfl, ?_⟩
+    · unfold W.loopStep
+      simp [hs, hst, hbl]
+    · unfold W.loopStep W.postStop
+      simp
+  · intro w' hst hex haw
+    unfold W.tryFinishStop
+    simp only [hst, hex, haw, Bool.not_false, Bool.and_self, if_true, true_and]
+    obtain ⟨rest, hr⟩ := foldl_dropMsg_log w'.inbox (w'.env.emit (.hook .stopped))
+    exact ⟨rest, by rw [hr]; simp [Env.emit]⟩
 
 open Factory in
 /-- … and does not stop earlier: with a worker still busy or a job still queued the drain state
